@@ -1,6 +1,7 @@
 (* Entry/EntryC18.v — case format for C18.
    kind "reg":   input = ["reg"; nick; ident; name (arguments of NewConfig); password;
-                          negotiation "t"/"f"; SSL "t"/"f"; Config.Server; dec PingFreq (ns)]
+                          negotiation "t"/"f"; SSL "t"/"f"; Config.Server; dec PingFreq (ns);
+                          proxy dialer variant "ctx" (has DialContext) | "dial" (Dial only) — not read by the model]
                  obs   = [address handed to the dialer; dec #lines; the first lines on the wire up
                           to and including USER]      (SSL: no handshake is performed, #lines = 0)
    kind "pong":  input = ["pong"; dec #items; then 2 fields per item: form; payload]
@@ -16,6 +17,7 @@ Open Scope Z_scope.
 Definition k_reg : bytes := [114;101;103]%N.
 Definition k_pong : bytes := [112;111;110;103]%N.
 Definition k_pings : bytes := [112;105;110;103;115]%N.
+Definition k_busy : bytes := [98;117;115;121]%N.
 Definition f_t : bytes := [116]%N.
 Definition f_m : bytes := [109]%N.
 Definition f_s : bytes := [115]%N.
@@ -92,6 +94,18 @@ Fixpoint oracle_items (its : list (bytes * bytes)) (o : list bytes) : bool :=
 Definition oracle_pong (i o : list bytes) : bool :=
   oracle_items (items_of (get_nat i 1) (skipn 2 i)) o.
 
+(* ---------- busy: input = ["busy"; dec #tokens; tokens...]: a foreground handler blocks the event
+   loop, the server writes "PING :tok" for every token, the handler is released;
+   obs = [dec #lines; the PONG lines written before the final marker's PONG] ---------- *)
+Definition busy_toks (i : list bytes) : list bytes := take_from i 2 (get_nat i 1).
+Definition model_busy (i : list bytes) : list bytes :=
+  group (flat_map (fun t => fst (pong_of_raw (wire (ping_trailing None t)))) (busy_toks i)).
+Definition oracle_busy (i o : list bytes) : bool :=
+  match o with
+  | cnt :: lines => Nat.eqb (get_nat [cnt] 0) (length lines) && C18_busy_ok (busy_toks i) lines
+  | [] => false
+  end.
+
 (* ---------- pings ---------- *)
 Definition reg_cfg_pings (freq : Z) : reg_cfg :=
   {| rc_negotiate := false; rc_pass := []; rc_me := None; rc_server := []; rc_ssl := false; rc_ping_freq := freq |}.
@@ -114,6 +128,7 @@ Definition model_C18 (i : list bytes) : list bytes :=
   if beq k k_reg then model_reg i
   else if beq k k_pong then model_pong i
   else if beq k k_pings then model_pings i
+  else if beq k k_busy then model_busy i
   else [tag_bad].
 
 Definition oracle_C18 (i o : list bytes) : bool :=
@@ -121,6 +136,7 @@ Definition oracle_C18 (i o : list bytes) : bool :=
   if beq k k_reg then oracle_reg i o
   else if beq k k_pong then oracle_pong i o
   else if beq k k_pings then oracle_pings i o
+  else if beq k k_busy then oracle_busy i o
   else false.
 
 (* timing is not predicted: for "pings" only presence and well-formedness are compared *)
